@@ -252,7 +252,7 @@ ADDED = {
     'C17': "Added: (R7) clearing a stream's queue drops only that stream's in-flight DATA frame.",
     'C18': "Added: budget charged with the unpadded payload; header-list size accumulated across CONTINUATION frames; (R7) the write-buffer gate measures capacity() - len(); (R8) no-loss of owed replies.",
     'C19': "Added: (R6) client::Connection::poll re-checks has_streams_or_other_references after polling; (R8) the last reference of a closed stream wakes the connection whatever queues still hold it.",
-    'C20': "Added: (R6/R7) handles dropped on another thread during a poll are noticed (post-poll re-check, last-reference wake).",
+    'C20': "Added: (R6/R7) handles dropped on another thread during a poll are noticed (post-poll re-check, last-reference wake). (R10 = C06.R1b) every handle operation that queues work for the connection wakes its task - the only signal that crosses threads. (RD) no Result of an h2 call is dropped in the handle layer.",
 }
 
 
@@ -274,6 +274,14 @@ def census_sentence(prop):
             n = 0
         if n:
             out.append('%s.%s: %d %s' % (prop, rid, n, what))
+    try:
+        from . import errdisc
+        if prop in errdisc.SCOPE:
+            out.append('%s.RD: error discipline over %s - the Result of every h2 call is propagated, matched, returned or passed on, never dropped (use chains of the returned local in MIR; one accepted discard, in Drop)' % (prop, ', '.join(x.replace('src/', '') for x in errdisc.SCOPE[prop])))
+    except Exception:
+        pass
+    if prop in ('C02', 'C03', 'C05', 'C06', 'C16'):
+        out.append('%s.RL: send/receive layering, namesake accessors and direction words (a `&self` accessor named after one direction never reads the other direction\'s field or method)' % prop)
     if not out:
         return ''
     return ' Census rules (reviewed instances frozen with one reason each, keyed by function / resolved callee / operand roots, never by text): ' + '; '.join(out) + '.'
